@@ -135,7 +135,7 @@ struct Run {
 		// signed: the same value through every type that holds it
 		if (v >= -128 && v <= 127) { C c; c = (signed char)v; std::printf("%s fromi8 %lld => %llx\n", hdr, v, enc(c)); }
 		if (v >= -32768 && v <= 32767) { C c; c = (short)v; std::printf("%s fromi16 %lld => %llx\n", hdr, v, enc(c)); }
-		if (v > -2147483648ll && v <= 2147483647ll) { C c; c = (int)v;   // INT_MIN: -rhs is undefined behaviour inside the library
+		if (v >= -2147483648ll && v <= 2147483647ll) { C c; c = (int)v;   // INT_MIN included since repair 9d458c8 (magnitude in unsigned arithmetic)
 			 std::printf("%s fromi32 %lld => %llx\n", hdr, v, enc(c)); }
 		{ C c; c = (long long)v; std::printf("%s fromi64 %lld => %llx\n", hdr, v, enc(c)); }
 		{ C c; c = (long)v; std::printf("%s fromi64 %lld => %llx\n", hdr, v, enc(c)); }
